@@ -9,7 +9,9 @@ case = {"clock": "int"|"float"|"dur"|"durmin", "strategy": "log"|"warn"|"pause",
         "models": [model, ...],
         "cmds": [cmd, ...],            # ["init", start, warm, end, model_index] | ["start"] | ["step"] | ...
         "stop_at": [i, ...]            # optional: the handler of the i-th executed event of a replication calls stop()
-        "twin_from": j}                # optional: also run cmds[j:] (cmds[j] an init) on a brand-new simulator and model
+        "twin_from": j,                # optional: also run cmds[j:] (cmds[j] an init) on a brand-new simulator and model
+        "slow": {"stop": 0.3}}         # optional: slow subscribers to simulator notifications (seconds); an init command with a
+                                       # 6th element "asap" is issued as soon as is_starting_or_running() turns False
 model = {"prog": [[action, ...], ...],   # prog[0] = construct_model body, prog[h] = handler h
          "lst": [[action, ...], ...],    # body of user listener l (performed inside notify)
          "subs": [[et, l], ...],         # subscriptions made in construct_model, in this order
@@ -67,7 +69,7 @@ def run_both(case, name):
         mi = c[4] if len(c) > 4 else 0
         twin = {"clock": case["clock"], "strategy": case["strategy"], "models": [case["models"][mi]],
                 "cmds": [[c[0], c[1], c[2], c[3], 0]] + [list(x) for x in case["cmds"][j + 1:]],
-                "stop_at": case.get("stop_at_twin", case.get("stop_at"))}
+                "stop_at": case.get("stop_at_twin", case.get("stop_at")), "slow": case.get("slow")}
         if any(x[0] == "init" and (x[4] if len(x) > 4 else 0) != mi for x in case["cmds"][j + 1:]):
             twin["models"] = case["models"]
             twin["cmds"][0][4] = mi
@@ -197,9 +199,9 @@ def run_case(case, name, early=None):
                             "pause": ErrorStrategy.WARN_AND_PAUSE}[case["strategy"]])
 
     rec = {k: [] for k in LISTS}
-    rec.update({"snaps": [], "notes": [], "marks": [], "pre_init": []})
+    rec.update({"snaps": [], "notes": [], "marks": [], "pre_init": [], "late_ntfs": [], "racy_snaps": []})
     stop_at = set(case.get("stop_at") or [])
-    state = {"exec_in_repl": 0, "serial": 0}
+    state = {"exec_in_repl": 0, "serial": 0, "old_threads": set(), "in_init": False}
 
     NT = [(ReplicationInterface.START_REPLICATION_EVENT, "startrepl"),
           (SimulatorInterface.STARTING_EVENT, "starting"),
@@ -223,14 +225,35 @@ def run_case(case, name, early=None):
         def notify(self, event):
             nm = names.get(id(event.event_type), "other")
             ts = getattr(event, "timestamp", None)
+            if threading.current_thread() in state["old_threads"]:
+                # fired by the run thread of a replication that was re-initialised away
+                if state["in_init"]:
+                    rec["log"].append(["ntf-from-old-thread-during-initialize", nm])
+                else:
+                    rec["late_ntfs"].append([nm, None if ts is None else to_q(ts)])
+                return
             rec["ntfs"].append([nm, None if ts is None else to_q(ts)])
             rec["log"].append(["ntf", nm, None if ts is None else to_q(ts)])
 
     coll = Collector()
+    slow = case.get("slow") or {}
+
+    class SlowListener(EventListener):
+        """a subscriber that takes its time (a GUI, a logger): subscribed AFTER the collector"""
+        def __init__(self, d):
+            self.d = d
+
+        def notify(self, event):
+            time.sleep(self.d)
+
+    slow_listeners = {k: SlowListener(d) for k, d in slow.items()}
 
     def subscribe():
         for et, _ in NT:
             sim.add_listener(et, coll)
+        for et, nm in NT:
+            if nm in slow_listeners:
+                sim.add_listener(et, slow_listeners[nm])
 
     def rec_class(base):
         class Rec(base):
@@ -471,8 +494,18 @@ def run_case(case, name, early=None):
     def stat_snapshot():
         return [[m.mi, gen, key, kind, all_getters(o), list(o.fed)] for m in models for gen, key, kind, o in m.all_stats]
 
+    def wait_not_running():
+        """what a caller does who re-initialises as soon as the simulator says it is no longer running"""
+        t0 = time.time()
+        while sim.is_starting_or_running() and time.time() - t0 < 6.0:
+            time.sleep(0.0002)
+
+    def is_asap(c):
+        return c[0] == "init" and len(c) > 5 and c[5] == "asap"
+
     current = None
-    for ci, c in enumerate(case["cmds"]):
+    cmds = case["cmds"]
+    for ci, c in enumerate(cmds):
         if c[0] == "init":
             mark = {k: len(rec[k]) for k in LISTS}
             mark["cmd"] = ci
@@ -480,8 +513,16 @@ def run_case(case, name, early=None):
             pre = stat_snapshot()
             saved_exec = state["exec_in_repl"]
             state["exec_in_repl"] = 0
+            saved_old = set(state["old_threads"])
+            state["old_threads"] |= {t for t in threading.enumerate() if t.name == name}
+            state["in_init"] = True
         r = issue(c)
-        wait_quiet()
+        state["in_init"] = False
+        if ci + 1 < len(cmds) and is_asap(cmds[ci + 1]) and c[0] in ("start", "runupto", "runuptoincl"):
+            wait_not_running()
+            rec["racy_snaps"].append(ci)
+        else:
+            wait_quiet()
         if c[0] == "init":
             if r == "ok":
                 rec["marks"].append(mark)
@@ -489,12 +530,18 @@ def run_case(case, name, early=None):
                 current = models[c[4] if len(c) > 4 else 0]
             else:
                 state["exec_in_repl"] = saved_exec
+                state["old_threads"] = saved_old
         if c[0] in ("init", "cleanup", "initbad"):
             subscribe()
         rec["snaps"].append([r, sim.run_state.name, sim.replication_state.name,
                              to_q(sim.simulator_time), sim.eventlist().size()])
         rec["log"].append(["cmd", c, r, sim.run_state.name, sim.replication_state.name,
                            to_q(sim.simulator_time), sim.eventlist().size()])
+    if slow:
+        # let every slow subscriber finish, then look at the simulator once more
+        time.sleep(max(slow.values()) + 0.25)
+        wait_quiet()
+    rec["settled"] = [sim.run_state.name, sim.replication_state.name, to_q(sim.simulator_time), sim.eventlist().size()]
 
     def alive():
         return any(t.name == name and t.is_alive() for t in threading.enumerate())
